@@ -456,6 +456,7 @@ func (t *Tokenizer) tokenizeBuffer(buf []byte, last bool) {
 			t.mode = commentMap
 		case commentEnd:
 			t.mode = valueMap
+			continue
 		case charErr:
 			t.byteError(off, t.mode, b)
 		}
